@@ -19,12 +19,20 @@ namespace SR.Py
 
 /-- Python exceptions that the translated subset can raise.  `Diverged` is not
     a Python exception: it marks exhaustion of the generated fuel bound of a
-    `while` loop. -/
+    `while` loop.  `OutOfSubset` is not a Python exception either: it marks a
+    run that reaches an operation whose Python result lies outside the
+    translated subset (`2 ** e` with `e < 0` is a float); what Python does from
+    there on is NOT modelled, and the equivalence proofs show that the marker is
+    never returned on the inputs they cover. -/
 inductive Err where
   | IndexError
   | ValueError
   | ZeroDivisionError
   | Diverged
+  | TypeError
+  | AssertionError
+  | KeyError
+  | OutOfSubset
   deriving DecidableEq, Repr, Inhabited
 
 /-- Outcome of running a loop. -/
@@ -46,6 +54,62 @@ def index? {α : Type} [DecidableEq α] : List α → α → Option Nat
     (the translator only emits them for literal positive divisors). -/
 def ifloordiv (a b : Int) : Int := Int.fdiv a b
 def ifloormod (a b : Int) : Int := Int.fmod a b
+
+/-! ### Integers that may be negative (modules translated with `int` as `Int`) -/
+
+/-- `int.bit_length` on any int (`(-5).bit_length() == 3`). -/
+def bitLengthInt (i : Int) : Nat := bitLength i.natAbs
+
+/-- `seq[i]` for a Python int `i`, negative indices wrapping around exactly as
+    in Python (`seq[-1]` is the last element); `none` = `IndexError`. -/
+def getInt? {α : Type} (l : List α) (i : Int) : Option α :=
+  if 0 ≤ i then l[i.toNat]?
+  else if (-i).toNat ≤ l.length then l[l.length - (-i).toNat]?
+  else none
+
+/-- `seq[i] = v` on a list for a non-negative index; `none` = `IndexError`
+    (Python never extends a list by item assignment). -/
+def setNat? {α : Type} (l : List α) (i : Nat) (v : α) : Option (List α) :=
+  if i < l.length then some (l.set i v) else none
+
+/-- `seq[i] = v` for a Python int `i` (negative indices wrap around). -/
+def setInt? {α : Type} (l : List α) (i : Int) (v : α) : Option (List α) :=
+  if 0 ≤ i then setNat? l i.toNat v
+  else if (-i).toNat ≤ l.length then setNat? l (l.length - (-i).toNat) v
+  else none
+
+/-- `b ** e` on ints; `none` when `e < 0` (the Python result is a float, or
+    `ZeroDivisionError` for `b = 0`: outside the subset, reported as
+    `Err.OutOfSubset`). -/
+def powInt? (b e : Int) : Option Int := if 0 ≤ e then some (b ^ e.toNat) else none
+
+/-- `a << k`; `none` = `ValueError` (negative shift count). -/
+def shlInt? (a k : Int) : Option Int := if 0 ≤ k then some (a * 2 ^ k.toNat) else none
+
+/-- `a >> k` (floor semantics); `none` = `ValueError` (negative shift count). -/
+def shrInt? (a k : Int) : Option Int := if 0 ≤ k then some (a >>> k.toNat) else none
+
+/-! ### Ordering of opaque elements
+
+A module whose element type is only known to support `<` is translated with
+an explicit parameter `lt_ : α → α → Except Err Bool` standing for
+`Element.__lt__` (it may raise). -/
+
+/-- Python's `min(a, b)` on two elements: evaluates `b < a`, returns `b` when
+    it holds and `a` otherwise (CPython `min_max`: the first argument is kept
+    unless a later one is strictly smaller). -/
+def pyMin {α : Type} (lt : α → α → Except Err Bool) (a b : α) : Except Err α :=
+  match lt b a with
+  | .ok true => .ok b
+  | .ok false => .ok a
+  | .error e => .error e
+
+/-- `min(a, b)` on two values that may be `None`: `<` between `None` and
+    anything raises `TypeError` (elements are assumed not to accept `None` in
+    their `__lt__`). -/
+def pyMinOpt {α : Type} (lt : α → α → Except Err Bool) : Option α → Option α → Except Err α
+  | some a, some b => pyMin lt a b
+  | _, _ => .error .TypeError
 
 /-- Decidable comparison of results (used by the bounded refutation search of
     the harness; `Except` has no `DecidableEq` instance in core). -/
